@@ -572,6 +572,28 @@ func runC14(c *Ctx) {
 				_, x1 := encrypted_leaseset.NewEncryptedLeaseSet(7, cp(k.pub), 5, 9, 0, &o, inner, ed25519.PrivateKey(t.priv))
 				c14Defect(c, "NewEncryptedLeaseSet", "offline signature without the offline flag", x1 != nil, nil, "")
 			}
+			// every known blinded-key type, offline keys with an Ed25519 transient key: the trailing
+			// signature then has the transient type's length, the offline block's signature the blinded type's
+			for _, bt := range []int{0, 1, 2, 3, 4, 5, 6, 7, 8, 11} {
+				bl, okL := specSigPubLen[bt]
+				sl, okS := specSigLen[bt]
+				if !okL || !okS {
+					continue
+				}
+				o3, oe := offline_signature.NewOfflineSignature(4000000000-uint32(r.Intn(1000)), 7, cp(t.pub), r.Bytes(sl), uint16(bt))
+				if oe != nil {
+					continue
+				}
+				e3, err3 := encrypted_leaseset.NewEncryptedLeaseSet(uint16(bt), r.Bytes(bl), uint32(r.U64()), 1+uint16(r.U64()%65535), flags|1, &o3, inner, ed25519.PrivateKey(t.priv))
+				b3 := built{ctorOK: err3 == nil, reparse: b.reparse}
+				if err3 == nil {
+					b3.validOK = e3.Validate() == nil
+					var be error
+					b3.bytes, be = e3.Bytes()
+					b3.bytesOK = be == nil
+				}
+				c14Chain(c, fmt.Sprintf("NewEncryptedLeaseSet(offline, blinded type %d)", bt), nil, b3, "")
+			}
 			_, x2 := mkE(7, cp(k.pub)[:31], 9, 0, nil, inner)
 			c14Defect(c, "NewEncryptedLeaseSet", "blinded key length not matching its type", x2 != nil, nil, "")
 			_, x3 := mkE(7, cp(k.pub), 0, 0, nil, inner)
